@@ -28,7 +28,7 @@ var R = hx.NewRecorder("C16", "cases = histories (rapid state machine) of up to 
 	"oracle = model of what must / must not / may resume; DidResume equal on both ends; a resumed GMSSL connection must decode under the ORIGINAL master secret with the new randoms (independent passive decoder), keep version, suite and peer certificates; a non-resumed one must be a full handshake; data round trip after every connection; non-trivial = a connection that offered a ticket; distinct by hash of the history")
 
 func TestMain(m *testing.M) {
-	R.Require("resumed_by_a_clone", "tls_ticket:tampered", "tls_ticket:genuine", "version_changed", "ticket_opened", "ekm_reference", "original_master_proved", "resumed_gm", "resumed_tls", "rotated_old_key_accepted", "rotated_dropped", "tampered", "evicted", "policy_now_forbids_certs", "policy_now_requires_certs", "policy_now_verifies_untrusted_cert:gm=true", "policy_now_verifies_untrusted_cert:gm=false", "resumed_identity_verified:gm=true", "resumed_identity_verified:gm=false", "tickets_disabled", "server_switched", "suite_removed", "must_resume", "must_not_resume")
+	R.Require("per_client_config", "resumed_by_a_clone", "tls_ticket:tampered", "tls_ticket:genuine", "version_changed", "ticket_opened", "ekm_reference", "original_master_proved", "resumed_gm", "resumed_tls", "rotated_old_key_accepted", "rotated_dropped", "tampered", "evicted", "policy_now_forbids_certs", "policy_now_requires_certs", "policy_now_verifies_untrusted_cert:gm=true", "policy_now_verifies_untrusted_cert:gm=false", "resumed_identity_verified:gm=true", "resumed_identity_verified:gm=false", "tickets_disabled", "server_switched", "suite_removed", "must_resume", "must_not_resume")
 	hx.Main(m, R)
 }
 
@@ -122,6 +122,7 @@ func TestC16_Histories(t *testing.T) {
 		// one history in three of those with a client certificate: the certificate does not chain to the server's ClientCAs
 		// (acceptable under the requesting policies, not under the verifying ones)
 		certUntrusted := withClientCert && gen.OneIn(t, "clientCertUntrusted", 3)
+		perClientCfg := gen.OneIn(t, "perClientConfig", 4)
 		suiteChoices := []uint16{tlsx.GMECCSM4CBCSM3, tlsx.GMECCSM4GCMSM3}
 		if !gm {
 			suiteChoices = []uint16{0xc02f, 0xc014, 0xcca8}
@@ -233,6 +234,17 @@ func TestC16_Histories(t *testing.T) {
 			}
 			if !gm && s.maxVers < 0x0303 && s.suites != nil && !contains(s.suites, 0xc014) && !contains(s.suites, 0x002f) && !contains(s.suites, 0x0035) {
 				expectFail = true // no configured suite is usable below TLS 1.2
+			}
+			if perClientCfg {
+				// the listener's configuration hands every client a configuration value of its own (same contents, no ticket
+				// keys of its own): it works with the listener's ticket keys, so the history reads as without the callback
+				base := sc
+				base.GetConfigForClient = func(*gmtls.ClientHelloInfo) (*gmtls.Config, error) {
+					return &gmtls.Config{GMSupport: base.GMSupport, Certificates: base.Certificates, GetCertificate: base.GetCertificate, GetKECertificate: base.GetKECertificate,
+						CipherSuites: base.CipherSuites, ClientAuth: base.ClientAuth, ClientCAs: base.ClientCAs, Rand: base.Rand, Time: base.Time,
+						MinVersion: base.MinVersion, MaxVersion: base.MaxVersion, SessionTicketsDisabled: base.SessionTicketsDisabled}, nil
+				}
+				classes["per_client_config"] = true
 			}
 			payloadC, payloadS := []byte("from client "+id), []byte("from server "+id)
 			r := tlsx.Run(cc, sc, tlsx.Script{ClientSend: payloadC, ServerSend: payloadS, ServerAddr: name, ClientAddr: "client:" + id})
